@@ -115,7 +115,7 @@ theorem mem_assign_of_mem_vs (c : List Allele) (ts : List Nat) (vs : List Allele
 
 /-! ## the stages preserve `Good` -/
 
-theorem singletonCol_perm (gv : List Allele) : (singletonCol gv).Perm gv := List.mergeSort_perm _ _
+theorem singletonCol_perm (gv : List Allele) : (singletonCol gv).Perm gv := isort_perm _ _
 
 theorem forceOut_good (col gv out : List Allele) (hlen : col.length = gv.length) (h : ForceOut col gv out) :
     Good gv out := by
